@@ -397,7 +397,7 @@ func (p *Parser) parseAssignStmt() ast.Statement {
 		return nil
 	}
 
-	stmt.Value = p.parseExpression(SUM)
+	stmt.Value = p.parseExpression(LOWEST)
 
 	return stmt
 }
@@ -764,6 +764,8 @@ func (p *Parser) parseInfixExp(left ast.Expression) ast.Expression {
 		Left:     left,
 	}
 
+	precedence := precedences[p.curToken.Type]
+
 	p.nextToken() // skip operator
 
 	if p.curTokenIs(token.RBRACES) {
@@ -771,7 +773,7 @@ func (p *Parser) parseInfixExp(left ast.Expression) ast.Expression {
 		return nil
 	}
 
-	exp.Right = p.parseExpression(SUM)
+	exp.Right = p.parseExpression(precedence)
 
 	return exp
 }
